@@ -17,6 +17,7 @@ import (
 	"strings"
 
 	"github.com/mattn/anko/env"
+	"github.com/mattn/anko/parser"
 	zz "github.com/mattn/anko/zzverif"
 )
 
@@ -455,5 +456,94 @@ func ZZ_C10_reference_valued_slots() {
 	for i := range want {
 		x, isInt := l[i].(int64)
 		zz.Assertf(isInt && x == want[i], "C10.reference-valued-slots/read-keeps-the-object-read/"+id, src)
+	}
+}
+
+// ZZ_C10_literal_is_fresh: every evaluation of a container literal (and of
+// make) yields a new container, as a Go composite literal does: a store through
+// one result never shows in the result of another evaluation of the same piece
+// of syntax - in a loop body, in a function called several times, in a tree
+// that is parsed once and run several times.
+func ZZ_C10_literal_is_fresh() {
+	lits := []struct{ name, lit, at string }{
+		{"list-of-literals", "[0, 0]", "[0]"},
+		{"list-of-strings", `["0", "0"]`, "[0]"},
+		{"list-with-computed-element", "[0, 0 + 0]", "[0]"},
+		{"nested-list", "[[0], [0]]", "[0][0]"},
+		{"map-literal", `{"k": 0, "j": 0}`, `["k"]`},
+		{"typed-list", "[]int64{0, 0}", "[0]"},
+		{"typed-map", `map[string]int64{"k": 0}`, `["k"]`},
+		{"make-slice", "make([]int64, 2)", "[0]"},
+		{"make-map", "make(map[string]int64)", `["k"]`},
+	}
+	k := zz.Choose(len(lits))
+	L, at := lits[k].lit, lits[k].at
+	w := zz.Int64()
+	zz.Assume(w != 0)
+	if k == 1 {
+		// (string elements: the stored value is a string as well)
+		zz.Assume(zz.And(w > 0, w < 10))
+	}
+	form := zz.Choose(3)
+	id := lits[k].name + "/" + []string{"loop-body", "function-called-again", "tree-run-again"}[form]
+	e := env.NewEnv()
+	e.Define("wnew", w)
+	e.Define("zero", func(x interface{}) bool {
+		switch v := x.(type) {
+		case int64:
+			return v == 0
+		case string:
+			return v == "0"
+		case nil:
+			return true // (a missing entry of a made map)
+		}
+		return false
+	})
+	e.Define("isw", func(x interface{}) bool {
+		v, ok := x.(int64)
+		return ok && v == w
+	})
+	store := "wnew"
+	if k == 1 {
+		store = `"9"`
+		e.Define("isw", func(x interface{}) bool { return x == "9" })
+	}
+	var src string
+	switch form {
+	case 0:
+		src = "r = []; for i in [1, 2, 3] { a = " + L + "; r += [zero(a" + at + ")]; a" + at + " = " + store + "; r += [isw(a" + at + ")] }; r"
+	case 1:
+		src = "f = func() { return " + L + " }; b = f(); c = f(); d = f(); c" + at + " = " + store + "; [zero(b" + at + "), isw(c" + at + "), zero(d" + at + "), zero(f()" + at + "), true, true]"
+	case 2:
+		src = "a = " + L + "; x = zero(a" + at + "); a" + at + " = " + store + "; [x, isw(a" + at + ")]"
+	}
+	stmt, perr := parser.ParseSrc(src)
+	zz.Assertf(perr == nil, "C10.literal-is-fresh/parses/"+id, src)
+	if perr != nil {
+		return
+	}
+	runs := 1
+	if form == 2 {
+		runs = 3
+	}
+	for n := 0; n < runs; n++ {
+		en := e
+		if form == 2 {
+			en = e.NewEnv()
+		}
+		v, err := Run(en, &Options{Debug: false}, stmt)
+		zz.Assertf(err == nil, "C10.literal-is-fresh/no-error/"+id, src)
+		if err != nil {
+			return
+		}
+		l, ok := v.([]interface{})
+		zz.Assertf(ok && (len(l) == 6 || len(l) == 2), "C10.literal-is-fresh/result-shape/"+id, src)
+		if !ok {
+			return
+		}
+		for i := range l {
+			b, isB := l[i].(bool)
+			zz.Assertf(isB && b, "C10.literal-is-fresh/each-evaluation-yields-a-new-container/"+id, src)
+		}
 	}
 }
